@@ -410,6 +410,46 @@ def check_difference_height(ctx, rep):
               "inverse must be x[node] = h[node] − aggregate(h[left], h[right]) with the hard max for k ≤ 0 and logsumexp(k·h)/k for k > 0, the same switch as the forward map")
 
 
+def check_log_difference_inverse(ctx, rep):
+    """C07.I (addition) — forward: y_k = log r[child_k] − log r[parent_k] with k the POSITION of the (parent, child) row in the pre-order table (`rates[..., indices[1]] −
+    rates[..., indices[0]]`).  An inverse, once it exists, reads y at that position: in a loop over the pre-order table the entries of y are addressed by the loop counter
+    (enumerate / zip with a range), never by the node numbers of the row — y[node] is the difference of whichever branch sits at position `node` of the table."""
+    cls = ctx.classes.get('torchtree.evolution.rate_transform.LogDifferenceRateTransform')
+    r = cls.resolve('_inverse')
+    key = 'LogDifferenceRateTransform._inverse::y-addressed-by-its-position-in-the-pre-order-table'
+    if r is None or r[0] is not cls:
+        rep.ok('C07.I', key, where(cls.module, cls.node) if hasattr(cls, 'node') else '', {'inverse': 'inherited / absent'})
+        return
+    inv = r[1]
+    body = [b for b in inv.body if not (isinstance(b, ast.Expr) and isinstance(b.value, ast.Constant))]
+    if len(body) == 1 and isinstance(body[0], ast.Raise):
+        rep.ok('C07.I', key, where(cls.module, inv), {'inverse': 'raises NotImplementedError'})
+        return
+    y = inv.args.args[1].arg
+    loops = [n for n in ast.walk(inv) if isinstance(n, (ast.For, ast.comprehension)) and 'preorder' in ast.unparse(n.iter)]
+    if not loops:
+        rep.undecided('C07.I', key, where(cls.module, inv), 'an inverse that does not walk the pre-order table is outside the rule')
+        return
+    bad = []
+    for lp in loops:
+        tgt = lp.target
+        counter, rows = set(), set()
+        if isinstance(lp.iter, ast.Call) and isinstance(lp.iter.func, ast.Name) and lp.iter.func.id == 'enumerate' and isinstance(tgt, ast.Tuple) and len(tgt.elts) == 2:
+            counter |= {n.id for n in ast.walk(tgt.elts[0]) if isinstance(n, ast.Name)}
+            rows |= {n.id for n in ast.walk(tgt.elts[1]) if isinstance(n, ast.Name)}
+        else:
+            rows |= {n.id for n in ast.walk(tgt) if isinstance(n, ast.Name)}
+        scope = lp if isinstance(lp, ast.For) else getattr(lp, '_parent', lp)
+        for sub in ast.walk(scope):
+            if isinstance(sub, ast.Subscript) and isinstance(sub.value, ast.Name) and sub.value.id == y:
+                used = {n.id for n in ast.walk(sub.slice) if isinstance(n, ast.Name)}
+                if used & rows:
+                    bad.append(sub)
+    rep.check('C07.I', key, not bad, where(cls.module, bad[0] if bad else inv), {'loops_over_the_table': len(loops)},
+              f"LogDifferenceRateTransform._inverse reads `{norm_text(bad[0])[:40] if bad else ''}`: y is laid out by the position of each (parent, child) row in the pre-order table, "
+              f"the node number addresses the difference of another branch — inverse(forward(x)) ≠ x on every tree whose pre-order is not the identity")
+
+
 def check_log_difference_rate(ctx, rep):
     cls = ctx.classes.get('torchtree.evolution.rate_transform.LogDifferenceRateTransform')
     call = cls.resolve('_call')[1]
@@ -578,7 +618,7 @@ def run(ctx, rep):
                         "the root is the last node and the pre-order table rows are (parent, child)"]
     rep.not_decided += ["torch's own transforms", "numerical equality at all points", "TrilExpDiagonalTransform / RescaledRateTransform (log-det raises)"]
     for f, rule in ((check_generic, 'C07.L'), (check_general_height, 'C07.G'), (check_difference_height, 'C07.Z'),
-                    (check_log_difference_rate, 'C07.L'), (check_callers, 'C07.C'), (check_last_axis_cat, 'C07.I')):
+                    (check_log_difference_rate, 'C07.L'), (check_log_difference_inverse, 'C07.I'), (check_callers, 'C07.C'), (check_last_axis_cat, 'C07.I')):
         try:
             f(ctx, rep)
         except Unsupported as u:
